@@ -15,6 +15,11 @@ PART = {}
 
 META = {
     'engine': 'E1 CrossHair 0.0.110 + z3 (selector-driven exploration; members run natively)',
+    'technique': 'bounded exploration of a finite input family driven by the symbolic engine (CrossHair/z3 enumerates the selector '
+                 'values, one member per path, each run natively on the real code); no symbolic data: the code reads names/elements '
+                 'only through equality',
+    'level_text': 'Exhaustive exploration, by the symbolic engine, of a stated finite family of modified two-residue molecules; weaker '
+                  'than the other checks because nothing is decided for an unbounded domain - stated as such.',
     'functions': ['vermouth.processors.canonicalize_modifications.CanonicalizeModifications.run_molecule', 'fix_ptm', 'find_ptm_atoms',
                   'allowed_ptms', 'identify_ptms', '_cover_graph', 'ptm_node_matcher'],
     'bounds': {
